@@ -24,6 +24,7 @@ package wallet
 //@   opt safety=assumed
 //@   assert@call CompareAndSwapInt32: (len(old(wallet.Password)) == 0 && old(wallet.EncryptFlag) == 1 ==> called(VerifyPasswordHash) && ret(VerifyPasswordHash)) && (len(old(wallet.Password)) != 0 ==> WalletUnLock.Passwd == old(wallet.Password))
 //@   ensures result != nil ==> wallet.isWalletLocked == old(wallet.isWalletLocked)
+//@   ensures result != nil ==> wallet.Password == old(wallet.Password)
 
 // changing the password: the temporary unlock must not happen before the old password is verified,
 // and a failed change leaves the lock state as it was
